@@ -231,6 +231,10 @@ pub fn check(_ctx: &Ctx, input: &Input) -> CaseResult {
         };
         let b = match exec::observe(&edited, &script, host_seed, true) {
             Ok(x) => x,
+            Err(e) if e.starts_with("interpreter-panic") => {
+                out.label("skip:interpreter-panic");
+                return Ok(out);
+            }
             Err(e) => return Err(Failure::new("import-replacement:output-not-loadable", format!("{} [{}]", e, origin))),
         };
         match exec::compare(&strip_trace(&a), &b) {
@@ -328,6 +332,10 @@ pub fn check(_ctx: &Ctx, input: &Input) -> CaseResult {
         };
         let b = match exec::observe(&edited, &script, host_seed, false) {
             Ok(x) => x,
+            Err(e) if e.starts_with("interpreter-panic") => {
+                out.label("skip:interpreter-panic");
+                return Ok(out);
+            }
             Err(e) => return Err(Failure::new("export-replacement:output-not-loadable", format!("{} [{}]", e, origin))),
         };
         // split the edited run: calls to the replaced export are judged against
